@@ -268,6 +268,46 @@ def stale_redirect_witness(run: Any) -> str | None:
     return None
 
 
+def rearmed_running_stage_witness(run: Any) -> str | None:
+    """Mechanism classifier: a JumpToStage re-armed a stage OTHER than its own source while that
+    stage was RUNNING (a parallel branch inside the loop body), and a StartTask / RunTask /
+    CompleteTask / CompleteStage message of that stage, queued before the re-arm, was handled after
+    it: messages carry no iteration, so the stale one acts on the re-armed stage."""
+    groups = Groups(run.commits)
+    since = getattr(run, "since", 0)
+    qins: dict[str, dict] = {}
+    qdel: dict[str, int] = {}
+    for a in run.audit:
+        if a["kind"] == "queue" and a["op"] == "ins":
+            qins[str(a["a"])] = a
+        elif a["kind"] == "queue" and a["op"] == "del":
+            qdel[str(a["a"])] = a["seq"]
+    id2ref = {v["id"]: k for k, v in run.state.get("stages", {}).items()}
+    for a in run.audit:
+        if a["seq"] <= since or a["kind"] != "status" or a["op"] != "stage" or a["c"] != "RUNNING" or a["d"] != "NOT_STARTED":
+            continue
+        g = groups.of(a["seq"])
+        tag = groups.tag(g)
+        if not tag or tag[0] != "JumpToStage":
+            continue
+        try:
+            src = json.loads(qins[str(tag[1])]["d"]).get("stage_id")
+        except Exception:
+            src = None
+        if a["a"] == src:
+            continue
+        for rid, q in qins.items():
+            if q["c"] not in ("StartTask", "RunTask", "CompleteTask", "CompleteStage") or q["seq"] >= a["seq"]:
+                continue
+            try:
+                sid = json.loads(q["d"]).get("stage_id")
+            except Exception:
+                continue
+            if sid == a["a"] and qdel.get(rid, 1 << 60) > a["seq"]:
+                return f"JumpToStage row {tag[1]} re-armed stage {id2ref.get(a['a'], a['a'])} while it was RUNNING (seq {a['seq']}); its {q['c']} row {rid}, queued at seq {q['seq']}, was still pending and was handled on the re-armed stage"
+    return None
+
+
 def attribute(violations: list[dict], run: Any, prop: str) -> list[dict]:
     """Re-sign the violations of a run whose failure is explained by a classified mechanism."""
     if not violations:
@@ -275,6 +315,9 @@ def attribute(violations: list[dict], run: Any, prop: str) -> list[dict]:
     w = stale_redirect_witness(run)
     if w:
         return [viol(f"{prop}/stale-redirect-completion-overtakes-next-iteration", f"{w}; symptoms: {[v['sig'] for v in violations][:4]}")]
+    w = rearmed_running_stage_witness(run)
+    if w:
+        return [viol(f"{prop}/jump-rearmed-a-running-stage:stale-message-of-the-previous-iteration-handled", f"{w}; symptoms: {[v['sig'] for v in violations][:4]}")]
     return violations
 
 
